@@ -372,7 +372,14 @@ fn gen_forest(rng: &mut Rng, knobs: &Knobs) -> GraphData {
 fn gen_layered(rng: &mut Rng, depth: usize, width: usize) -> GraphData {
     let n = depth * width;
     let mut g = GraphData::new(n);
-    let inits = rng.range(1, 3.min(width));
+    // A handful of initial states reach only a cone of the graph (a few thousand states at
+    // most); most layered graphs start from a sizeable part of the first layer so that the run
+    // really spans many 1500-state blocks.
+    let inits = match rng.below(10) {
+        0..=2 => rng.range(1, 3.min(width)),
+        3..=6 => (width / 16).max(1),
+        _ => (width / 4).max(1),
+    };
     for i in 0..inits {
         g.inits.push(i as u32);
     }
